@@ -1,7 +1,7 @@
 \* Model-level reproduction of finding F18 (not run by any check): CreateShardGroup as it was before the repair
-\* (ClampMin = FALSE) around MinNanoTime.  TLC reports C18_WellFormed violated after one write at MinNanoTime (the
-\* group's start is below the int64 range); with that invariant removed, C18_ReloadIsIdentity / C18_DataStaysContained
-\* fail after Write;Reload.  Phases are those of a 24h tick (driver mode "phases").
+\* (ClampMin = FALSE) around MinNanoTime.  The group created for a write at MinNanoTime starts below the int64 range
+\* (C18_WellFormed, left out here, already fails); after Write;Reload its start has wrapped to the far future and TLC
+\* reports C18_DataStaysContained violated (24 states).  Phases are those of a 24h tick (driver mode "phases").
 SPECIFICATION Spec
 CONSTANTS
   Base = "Min"
